@@ -21,11 +21,6 @@ theorem cfToIppe_eq : (Gen.C15.cfToIppe : M3 ℝ) = (Gen.C15.ippeToCf : M3 ℝ).
 theorem ippeRotToCf_real (R : M3 ℝ) :
     ippeRotToCf R = (Gen.C15.ippeToCf : M3 ℝ).mul (R.mul (Gen.C15.ippeToCf : M3 ℝ).transpose) := rfl
 
-/-- determinant of a 3x3 matrix -/
-def M3.det (m : M3 ℝ) : ℝ :=
-  m.r0.x * (m.r1.y * m.r2.z - m.r1.z * m.r2.y) - m.r0.y * (m.r1.x * m.r2.z - m.r1.z * m.r2.x) +
-    m.r0.z * (m.r1.x * m.r2.y - m.r1.y * m.r2.x)
-
 theorem ippeToCf_det : M3.det (Gen.C15.ippeToCf : M3 ℝ) = 1 := by
   simp [M3.det, Gen.C15.ippeToCf]
 
